@@ -169,7 +169,7 @@ func main() {
 	}
 
 	maxLen, fileLen := 3, 2
-	lifeDepth, tickDepth, maxTicks := 7, 4, 2
+	lifeDepth, tickDepth, maxTicks := 7, 5, 2
 	totalBudget = 50 * time.Second
 	if r.Thorough() {
 		maxLen, fileLen = 4, 3
